@@ -572,4 +572,169 @@ theorem renderTemplate_chain (L : List Tpl) (vars : Vars) (c : Tpl) (chain : Lis
   rw [this]
   cases list (c :: chain) (renderDef fuel (c :: chain)) vars none [] root.body <;> rfl
 
+/-! ## required blocks declared in the root only -/
+
+/-- no template of the chain but the last (the root) declares a `required` block -/
+def reqOnlyRoot (chain : List Tpl) : Bool :=
+  chain.dropLast.all (fun t => (declsL t.body).all (fun d => !d.req))
+
+mutual
+theorem agreeP_of_decls (chain : List Tpl) : (p : Piece) →
+    (∀ d ∈ declsP p, reqAgree chain d.name d.req = true) → agreeP chain p = true
+  | .block n sc rq body, h => by
+    simp only [agreeP, Bool.and_eq_true]
+    refine ⟨h ⟨n, sc, rq, body⟩ (by simp [declsP]), agreeL_of_decls chain body (fun d hd => h d (by simp [declsP, hd]))⟩
+  | .forLoop _ _ body, h => by
+    simp only [agreeP]; exact agreeL_of_decls chain body (fun d hd => h d (by simpa [declsP] using hd))
+  | .ifc _ body, h => by
+    simp only [agreeP]; exact agreeL_of_decls chain body (fun d hd => h d (by simpa [declsP] using hd))
+  | .text _, _ => rfl
+  | .var _, _ => rfl
+  | .superCall _, _ => rfl
+  | .selfCall _, _ => rfl
+  | .ext _, _ => rfl
+theorem agreeL_of_decls (chain : List Tpl) : (ps : List Piece) →
+    (∀ d ∈ declsL ps, reqAgree chain d.name d.req = true) → agreeL chain ps = true
+  | [], _ => rfl
+  | p :: ps, h => by
+    simp only [agreeL, Bool.and_eq_true]
+    exact ⟨agreeP_of_decls chain p (fun d hd => h d (by simp [declsL, hd])),
+      agreeL_of_decls chain ps (fun d hd => h d (by simp [declsL, hd]))⟩
+end
+
+theorem find_self_of_nodup : (ds : List Decl) → nodupNames (ds.map (·.name)) = true → ∀ d ∈ ds,
+    ds.find? (fun x => x.name == d.name) = some d
+  | [], _, d, hd => by simp at hd
+  | x :: ds, hn, d, hd => by
+    simp only [List.map_cons, nodupNames, Bool.and_eq_true, Bool.not_eq_true'] at hn
+    rcases List.mem_cons.mp hd with rfl | hd
+    · simp [List.find?]
+    · have hne : (x.name == d.name) = false := by
+        simp only [beq_eq_false_iff_ne, ne_eq]
+        intro e
+        have : (ds.map (·.name)).contains x.name = true := by
+          simp only [List.contains_eq_mem, List.mem_map, decide_eq_true_eq]
+          exact ⟨d, hd, e.symm⟩
+        rw [this] at hn; exact absurd hn.1 (by simp)
+      simp [List.find?, hne, find_self_of_nodup ds hn.2 d hd]
+
+theorem defs_append (k1 k2 : List Tpl) (n : Name) : defs (k1 ++ k2) n = defs k1 n ++ defs k2 n := by
+  simp [defs, List.filterMap_append]
+
+theorem mem_defs {kids : List Tpl} {n : Name} {d : Decl} (h : d ∈ defs kids n) : ∃ t ∈ kids, d ∈ declsL t.body := by
+  unfold defs at h
+  rw [List.mem_filterMap] at h
+  obtain ⟨t, ht, hf⟩ := h
+  exact ⟨t, ht, List.mem_of_find?_eq_some hf⟩
+
+theorem defs_ne_nil_of_decl {kids : List Tpl} {t : Tpl} (ht : t ∈ kids) {d : Decl} (hd : d ∈ declsL t.body) :
+    defs kids d.name ≠ [] := by
+  intro h
+  have : findBlock d.name t.body = none := by
+    unfold defs at h
+    rw [List.filterMap_eq_nil_iff] at h
+    exact h t ht
+  unfold findBlock at this
+  rw [List.find?_eq_none] at this
+  have := this d hd
+  simp at this
+
+theorem agreeAll_of_reqOnlyRoot (kids : List Tpl) (root : Tpl)
+    (hnd : nodupNames (blockNames root) = true) (h : reqOnlyRoot (kids ++ [root]) = true) :
+    agreeAll (kids ++ [root]) = true := by
+  have hk : ∀ t ∈ kids, ∀ d ∈ declsL t.body, d.req = false := by
+    simp only [reqOnlyRoot, List.dropLast_concat, List.all_eq_true, Bool.not_eq_true'] at h
+    exact h
+  have hfirst : ∀ n d0 more, defs kids n = d0 :: more → d0.req = false := by
+    intro n d0 more he
+    obtain ⟨t, ht, hd⟩ := mem_defs (n := n) (d := d0) (by rw [he]; simp)
+    exact hk t ht d0 hd
+  unfold agreeAll
+  rw [List.all_eq_true]
+  intro t ht
+  apply agreeL_of_decls
+  intro d hd
+  unfold reqAgree
+  rw [defs_append]
+  rcases List.mem_append.mp ht with ht | ht
+  · -- a child's declaration: never required, and some child defines it
+    have hne := defs_ne_nil_of_decl ht hd
+    cases he : defs kids d.name with
+    | nil => exact absurd he hne
+    | cons d0 more =>
+      simp [hfirst _ _ _ he, hk t ht d hd]
+  · -- the root's own declaration
+    simp only [List.mem_singleton] at ht; subst ht
+    have hroot : defs [t] d.name = [d] := by
+      simp [defs, findBlock, find_self_of_nodup (declsL t.body) hnd d hd]
+    rw [hroot]
+    cases he : defs kids d.name with
+    | nil => simp
+    | cons d0 more => simp [hfirst _ _ _ he]
+
+
+/-! ## a second `extends` -/
+
+/-- reachable top-level states: `parent_template` is set only after an `extends` was counted -/
+def TopInv (st : Top) : Prop := st.parent.isSome = true → st.extSoFar > 0
+
+mutual
+theorem inv_topPiece (L : List Tpl) (fuel : Nat) (vars : Vars) (he : Bool) :
+    (p : Piece) → (rl : Bool) → (st st' : Top) → (o : Text) → TopInv st →
+    topPiece L fuel vars he rl st p = .ok (st', o) → TopInv st'
+  | .text s, rl, st, st', o, hi, h => by
+    simp only [topPiece] at h; split at h <;> simp at h; obtain ⟨rfl, _⟩ := h; exact hi
+  | .var x, rl, st, st', o, hi, h => by
+    simp only [topPiece] at h; split at h <;> simp at h; obtain ⟨rfl, _⟩ := h; exact hi
+  | .superCall k, rl, st, st', o, hi, h => by
+    simp only [topPiece] at h; split at h <;> simp at h; obtain ⟨rfl, _⟩ := h; exact hi
+  | .selfCall n, rl, st, st', o, hi, h => by
+    simp only [topPiece] at h; split at h <;> simp at h; obtain ⟨rfl, _⟩ := h; exact hi
+  | .forLoop x it body, rl, st, st', o, hi, h => by
+    simp only [topPiece] at h; split at h <;> simp at h; obtain ⟨rfl, _⟩ := h; exact hi
+  | .block n sc rq body, rl, st, st', o, hi, h => by
+    simp only [topPiece] at h
+    split at h
+    · simp at h; obtain ⟨rfl, _⟩ := h; exact hi
+    · split at h
+      · simp at h; obtain ⟨rfl, _⟩ := h; exact hi
+      · split at h <;> simp at h; obtain ⟨rfl, _⟩ := h; exact hi
+  | .ifc f body, rl, st, st', o, hi, h => by
+    simp only [topPiece] at h
+    split at h
+    · exact inv_topList L fuel vars he body false st st' o hi h
+    · simp at h; obtain ⟨rfl, _⟩ := h
+      intro hp; have := hi hp; simp only; omega
+  | .ext t, rl, st, st', o, hi, h => by
+    simp only [topPiece] at h
+    split at h
+    · cases h
+    · split at h
+      · cases h
+      · split at h
+        · cases h
+        · simp at h; obtain ⟨rfl, _⟩ := h; intro _; simp
+theorem inv_topList (L : List Tpl) (fuel : Nat) (vars : Vars) (he : Bool) :
+    (ps : List Piece) → (rl : Bool) → (st st' : Top) → (o : Text) → TopInv st →
+    topList L fuel vars he rl st ps = .ok (st', o) → TopInv st'
+  | [], rl, st, st', o, hi, h => by simp [topList] at h; obtain ⟨rfl, _⟩ := h; exact hi
+  | p :: ps, rl, st, st', o, hi, h => by
+    simp only [topList] at h
+    split at h
+    · cases h
+    · rename_i st1 a h1
+      split at h
+      · cases h
+      · rename_i st2 b h2
+        simp at h; obtain ⟨rfl, _⟩ := h
+        exact inv_topList L fuel vars he ps rl st1 st2 b (inv_topPiece L fuel vars he p rl st st1 a hi h1) h2
+end
+
+theorem eq_dropLast_append_of_getLast? {α} : (l : List α) → (r : α) → l.getLast? = some r → l = l.dropLast ++ [r]
+  | [], r, h => by simp at h
+  | [a], r, h => by simp at h; simp [h]
+  | a :: b :: l, r, h => by
+    have := eq_dropLast_append_of_getLast? (b :: l) r (by simpa [List.getLast?_cons_cons] using h)
+    rw [List.dropLast_cons_cons, List.cons_append, ← this]
+
 end JinjaV.Inherit
